@@ -149,7 +149,7 @@ func TestVerifC08Conc(t *testing.T) {
 		overlapBursts, mixedBursts, lateFinishes, gatedBursts, ungatedOverlap := 0, 0, 0, 0, 0
 		gate := vfFindMutex(cb)
 		if gate == nil {
-			vf.Class("conc: breaker has no sync.Mutex field (gated bursts unavailable)")
+			vf.Class("probe-unavailable:breaker-mutex (conc: no gated bursts)")
 		}
 		var desc []string
 		var drawn []string // what the generator chose (distinctness key; independent of the schedule)
